@@ -20,6 +20,7 @@ type c02Case struct {
 	I     int      `json:"i"`
 	N     int      `json:"n"`
 	Guest []string `json:"guest_locations,omitempty"`
+	Keys  []string `json:"keys,omitempty"`
 }
 
 func applyInsertOp(op string, host gts.Sequence, i int, guest gts.Sequence) gts.Sequence {
@@ -58,9 +59,10 @@ func c02Eval(c c02Case) (ok bool, sig, detail string) {
 		return true, "", "bad case: " + err.Error()
 	}
 	hostRes, guestRes := locdom.Seq(c.L), guestSeq(c.N)
+	keys := c03Keys(c03Case{Locs: c.Locs, Keys: c.Keys})
 	var out gts.Sequence
 	if p, msg := engine.Safely(func() {
-		out = applyInsertOp(c.Op, mkSeq(hostRes, locs, "h"), c.I, mkSeq(guestRes, glocs, "g"))
+		out = applyInsertOp(c.Op, mkSeqKeys(hostRes, locs, keys), c.I, mkSeq(guestRes, glocs, "g"))
 	}); p {
 		return false, "panic", "panic: " + msg
 	}
@@ -73,12 +75,12 @@ func c02Eval(c c02Case) (ok bool, sig, detail string) {
 		return false, "feature-count", fmt.Sprintf("%d features in the result, want %d", len(ff), len(locs)+len(glocs))
 	}
 	for k, loc := range locs {
-		f, cnt := findOnce(ff, fmt.Sprintf("h%d", k))
+		f, cnt := findOnce(ff, keys[k])
 		if cnt != 1 {
-			return false, "feature-once", fmt.Sprintf("host feature h%d present %d times", k, cnt)
+			return false, "feature-once", fmt.Sprintf("host feature %s present %d times", keys[k], cnt)
 		}
 		if !propsEqual(f.Props, hostProps(k)) {
-			return false, "feature-props", fmt.Sprintf("host feature h%d qualifiers changed: %v", k, f.Props)
+			return false, "feature-props", fmt.Sprintf("host feature %s qualifiers changed: %v", keys[k], f.Props)
 		}
 		d0 := denOf(loc)
 		var exp refmodel.Atoms
@@ -173,6 +175,11 @@ func init() {
 					d := denOf(loc)
 					near := locdom.NearEdit(d, i, 0)
 					eval(c, near && n > 0)
+					if L <= 4 && n > 0 {
+						c2 := c
+						c2.Keys = []string{"source"}
+						eval(c2, near)
+					}
 					if near {
 						switch {
 						case len(d) > 0 && d[0].Pos == i:
